@@ -8,7 +8,8 @@ multi-output nodes, several sinks.  `Graph.WF` states what Python's `Node(...)`/
 guarantee by construction (inputs refer to declared outputs of existing, earlier nodes; input
 names are dict keys).
 -/
-import EkwVerif.Lemmas.GraphSplit
+import EkwVerif.Lemmas.GraphExpand
+import EkwVerif.Lemmas.GraphFuse
 
 namespace EkwVerif.Graph
 open Aux
@@ -420,6 +421,201 @@ example : ∃ (r : SplitResult) (ts : List Nat), splitGraph exKey exCutName exG 
   have hr : r = (match splitGraph exKey exCutName exG with | .ok r => r | .error _ => ⟨[], [], [], []⟩) := by
     rw [hres]
   exact (H (by rw [hr]; decide) (by rw [hr]; decide)).2.2.2.2
+
+/-! ### expand -/
+
+/-- Expansion wires every consumer to the right place.  Whenever `expand_graph` returns (for ANY
+expander, sub-graphs, input and output maps, node names — in particular names sharing characters
+with their parent), there is an image `img` of the input's nodes such that
+
+* a node the expander leaves alone has an image node with its name, payload, outputs and input
+  names, and each input `(k ↦ output o of parent j)` is connected (`WiredInput`)
+  - to output `o` of the image of `j`, if `j` is not expanded,
+  - to the DEFAULT output of the transformed copy of the sub-graph sink named
+    `selectedLeaf e o` (= `output_map.get(o, o)`), if `j` is expanded with `e`; that copy is
+    called `j.name + "." + leaf`, carries the sink's payload and has a default output;
+* an expanded node is replaced by a `_Subgraph` whose `leaves` are exactly such copies, filed under
+  the sink's own name (this is where `removeprefix` is needed, see `c11_lstrip_witness`);
+* the image of every sink is a sink of the result; of an expanded sink, all leaves and all inner
+  sinks are (the terminal-node fix). -/
+theorem c11_expand_wiring (ex : Node → Option Expansion) (g g' : Graph) (h : expandGraph ex g = .ok g') :
+    ∃ img : List XNode, img.length = g.nodes.length ∧
+      (∀ (i : Nat) (n : Node), g.nodes[i]? = some n → ∃ t, img[i]? = some t ∧ XImg ex g.nodes g'.nodes img n t) ∧
+      (∀ s ∈ g.sinks, ∃ t, img[s]? = some t ∧
+        match t with
+        | .node ti => ti ∈ g'.sinks
+        | .sub sg => (∀ p ∈ sg.leaves, p.2 ∈ g'.sinks) ∧ ∀ l ∈ sg.innerSinks, l ∈ g'.sinks) := by
+  simp only [expandGraph, transform] at h
+  cases hrun : run (expander ex) [] g.nodes with
+  | error e => simp [hrun] at h
+  | ok st =>
+    simp only [hrun] at h
+    cases hsk : sinksOf st.2 g.sinks with
+    | error e => simp [hsk] at h
+    | ok ts =>
+      simp only [hsk, expandFin] at h
+      cases h
+      have hinv := expand_run ex g.nodes st hrun
+      refine ⟨st.2, hinv.1, hinv.2, ?_⟩
+      intro s hs
+      obtain ⟨p, hp, hsp⟩ := List.getElem_of_mem hs
+      obtain ⟨t, ht, hf⟩ := mapE_ok_get _ _ _ hsk p s (by rw [List.getElem?_eq_getElem hp, hsp])
+      cases hd : st.2[s]? with
+      | none => simp [hd] at hf
+      | some t' =>
+        simp only [hd] at hf
+        have htt : t' = t := by injection hf
+        subst htt
+        refine ⟨t', rfl, ?_⟩
+        have hmem : t' ∈ ts := List.mem_of_getElem? ht
+        cases t' with
+        | node ti =>
+          simp only [List.mem_flatMap]
+          exact ⟨.node ti, hmem, by simp⟩
+        | sub sg =>
+          simp only [List.mem_flatMap]
+          refine ⟨fun q hq => ⟨.sub sg, hmem, ?_⟩, fun l hl => ⟨.sub sg, hmem, ?_⟩⟩
+          · simp only [List.mem_append, List.mem_map]
+            exact Or.inl ⟨q, hq, rfl⟩
+          · simp only [List.mem_append]
+            exact Or.inr hl
+
+/-- The special case spelled out: the consumer of an expanded node. -/
+theorem c11_expand_consumer (ex : Node → Option Expansion) (g g' : Graph) (h : expandGraph ex g = .ok g')
+    (i : Nat) (n : Node) (hn : g.nodes[i]? = some n) (hex : ex n = none)
+    (p : Nat) (k o : Name) (j : Nat) (hx : n.inputs[p]? = some (k, (j, o)))
+    (pj : Node) (hpj : g.nodes[j]? = some pj) (e : Expansion) (he : ex pj = some e) :
+    ∃ (ti : Nat) (m : Node) (l : Nat) (leaf : Node) (q : Nat) (mq : Node),
+      g'.nodes[ti]? = some m ∧ m.name = n.name ∧ m.payload = n.payload ∧ m.outputs = n.outputs ∧
+      m.inputs[p]? = some (k, (l, defaultOutput)) ∧
+      g'.nodes[l]? = some leaf ∧ leaf.name = pj.name ++ ['.'] ++ selectedLeaf e o ∧ defaultOutput ∈ leaf.outputs ∧
+      q ∈ e.sub.sinks ∧ e.sub.nodes[q]? = some mq ∧ mq.name = selectedLeaf e o ∧ leaf.payload = mq.payload := by
+  obtain ⟨img, hlen, himg, _⟩ := c11_expand_wiring ex g g' h
+  obtain ⟨t, ht, hx'⟩ := himg i n hn
+  unfold XImg at hx'
+  simp only [hex] at hx'
+  obtain ⟨ti, m, _, h2, h3, h4, h5, h6, h7⟩ := hx'
+  have hplt : p < m.inputs.length := by rw [h6]; exact (List.getElem?_eq_some_iff.1 hx).1
+  obtain ⟨hy1, pj', hpj', hcase⟩ := h7 p _ m.inputs[p] hx (List.getElem?_eq_getElem hplt)
+  simp only at hpj'
+  rw [hpj] at hpj'; cases hpj'
+  rcases hcase with ⟨hnone, _⟩ | ⟨e', he', q, mq, m', a1, a2, a3, a4, a5, a6, a7, a8⟩
+  · rw [he] at hnone; cases hnone
+  · rw [he] at he'; cases he'
+    refine ⟨ti, m, m.inputs[p].2.1, m', q, mq, h2, h3, h4, h5, ?_, a5, by simpa [prefixed, prefixOf] using a6, a8, a1, a2, a3, a7⟩
+    rw [List.getElem?_eq_getElem hplt]
+    congr 1
+    exact Prod.ext hy1 (Prod.ext rfl a4)
+
+/-- non-vacuity, on the witness of the `lstrip` defect: node `main` is expanded into `i -> mean`, the
+output map selects `mean`; the consumer `w` ends up connected to `main.mean`. -/
+def exX : Graph :=
+  { nodes := [ { name := "src".toList, outputs := [defaultOutput], payload := 1, inputs := [] },
+               { name := "main".toList, outputs := [defaultOutput], payload := 2, inputs := [("i".toList, (0, defaultOutput))] },
+               { name := "w".toList, outputs := [], payload := 3, inputs := [("x".toList, (1, defaultOutput))] } ],
+    sinks := [2] }
+
+def exExp (n : Node) : Option Expansion :=
+  if n.name = "main".toList then
+    some { sub := { nodes := [ { name := "i".toList, outputs := [defaultOutput], payload := 4, inputs := [] },
+                               { name := "mean".toList, outputs := [], payload := 5, inputs := [("x".toList, (0, defaultOutput))] } ],
+                    sinks := [1] },
+           inputMap := none, outputMap := some [(defaultOutput, "mean".toList)] }
+  else none
+
+def exXResult : Graph :=
+  { nodes := [ { name := "src".toList, outputs := [defaultOutput], payload := 1, inputs := [] },
+               { name := "main.i".toList, outputs := [defaultOutput], payload := 4, inputs := [(inputName, (0, defaultOutput))] },
+               { name := "main.mean".toList, outputs := [defaultOutput], payload := 5, inputs := [("x".toList, (1, defaultOutput))] },
+               { name := "w".toList, outputs := [], payload := 3, inputs := [("x".toList, (2, defaultOutput))] } ],
+    sinks := [3] }
+
+theorem exX_expands : expandGraph exExp exX = .ok exXResult := by rfl
+
+example := c11_expand_wiring exExp exX exXResult exX_expands
+example := c11_expand_consumer exExp exX exXResult exX_expands 2 _ rfl rfl 0 _ _ 1 rfl _ rfl _ rfl
+
+/-! ### fuse -/
+
+/-- Fusion keeps what the sinks compute.  For every interpretation `I` of the payloads and every
+fusion callback that is sound for `I` (`FuseSound`: the node it returns denotes the current node
+with the parent inlined and keeps the other inputs), whenever `fuse_nodes` returns, the `k`-th sink
+of the result has, at every output, the value of the `k`-th sink of the input.  (Callbacks are
+functions of the two nodes they are given and answer with a fresh node; a parent is offered for
+fusion only when `self.counter` ≤ 1 — that is part of the model, the theorem does not need it.) -/
+theorem c11_fuse {V : Type} (I : Interp V) (func : FuseFunc) (hs : FuseSound I func) (g g' : Graph) (h : g.WF)
+    (hres : fuseGraph func g = .ok g') :
+    g'.sinks.length = g.sinks.length ∧
+    ∀ (k s : Nat), g.sinks[k]? = some s → ∃ s', g'.sinks[k]? = some s' ∧ eval I g'.nodes s' = eval I g.nodes s := by
+  simp only [fuseGraph, transform] at hres
+  cases hrun : run (fuser func (countEdges g.nodes)) {} g.nodes with
+  | error e => simp [hrun] at hres
+  | ok st =>
+    simp only [hrun] at hres
+    cases hsk : sinksOf st.2 g.sinks with
+    | error e => simp [hsk] at hres
+    | ok ts =>
+      simp only [hsk] at hres
+      cases hres
+      have hinv := fuse_run I func hs (countEdges g.nodes) g.nodes h.nodes st hrun
+      refine ⟨mapE_ok_length _ _ _ hsk, ?_⟩
+      intro k s hks
+      obtain ⟨t, ht, hf⟩ := mapE_ok_get _ _ _ hsk k s hks
+      have hslt : s < g.nodes.length := h.sinks s (List.mem_of_getElem? hks)
+      obtain ⟨t', ht', hev⟩ := hinv.doneVal s hslt
+      simp only [ht'] at hf
+      have htt : t' = t := by injection hf
+      subst htt
+      exact ⟨t', ht, hev⟩
+
+/-- non-vacuity of `FuseSound`: a callback that never fuses is sound for every interpretation … -/
+example {V : Type} (I : Interp V) : FuseSound I (fun _ _ _ _ => none) := by
+  intro P C F pout cin h; cases h
+
+/-- … and the callback the correspondence check uses (`inlineFuse`, any acceptance predicate) is
+sound for every interpretation that reads a fused payload as "the child with the parent inlined";
+so for it fusion provably keeps every sink's value. -/
+theorem c11_fuse_inline {V : Type} (I : Interp V) (hI : RespectsFused I) (accept : Node → Name → Node → Name → Bool)
+    (g g' : Graph) (h : g.WF) (hres : fuseGraph (inlineFuse accept) g = .ok g') :
+    g'.sinks.length = g.sinks.length ∧
+    ∀ (k s : Nat), g.sinks[k]? = some s → ∃ s', g'.sinks[k]? = some s' ∧ eval I g'.nodes s' = eval I g.nodes s :=
+  c11_fuse I (inlineFuse accept) (inlineFuse_sound I hI accept) g g' h hres
+
+/-- an interpretation (into numbers) that respects fused payloads, by recursion on the payload -/
+def exI : Interp Nat
+  | .atom n, ins, o => n + o.length + ((ins "x".toList).getD 7) * 3 + ((ins "y".toList).getD 5) * 11
+  | .fused c cin p pout pins _, ins, o =>
+    exI c (fun k => if k = cin then some (exI p (fun k' => if k' ∈ pins then ins (cin ++ ['.'] ++ k') else none) pout)
+                    else if k ∈ pins.map (fun k' => cin ++ ['.'] ++ k') then none else ins k) o
+
+theorem exI_respects : RespectsFused exI := by
+  intro c cin p pout pins pouts ins o; rfl
+
+/-- a chain `r -> a -> b -> w` plus a second consumer of `r` -/
+def exChain : Graph :=
+  { nodes := [ { name := "r".toList, outputs := [defaultOutput], payload := 1, inputs := [] },
+               { name := "a".toList, outputs := [defaultOutput], payload := 2, inputs := [("x".toList, (0, defaultOutput))] },
+               { name := "b".toList, outputs := [defaultOutput], payload := 3, inputs := [("x".toList, (1, defaultOutput)), ("y".toList, (0, defaultOutput))] },
+               { name := "w".toList, outputs := [], payload := 4, inputs := [("y".toList, (2, defaultOutput))] } ],
+    sinks := [3] }
+
+theorem exChain_wf : exChain.WF := ⟨by decide, by decide⟩
+
+/-- non-vacuity: on the chain the callback really fuses (`a` into `b`, then that into `w`; `r` has two
+consumers and stays), and the theorem applies -/
+example : (match fuseGraph (inlineFuse fun _ _ _ _ => true) exChain with
+    | .ok g' => (g'.nodes.length, g'.sinks) | .error _ => (0, [])) = (6, [5]) := by decide
+def exChainFused : Graph :=
+  match fuseGraph (inlineFuse fun _ _ _ _ => true) exChain with
+  | .ok g' => g'
+  | .error _ => { nodes := [], sinks := [] }
+
+theorem exChain_fuses : fuseGraph (inlineFuse fun _ _ _ _ => true) exChain = .ok exChainFused := by rfl
+
+example : exChainFused.sinks.length = exChain.sinks.length ∧
+    ∀ (k s : Nat), exChain.sinks[k]? = some s →
+      ∃ s', exChainFused.sinks[k]? = some s' ∧ eval exI exChainFused.nodes s' = eval exI exChain.nodes s :=
+  c11_fuse_inline exI exI_respects _ exChain exChainFused exChain_wf exChain_fuses
 
 /-! ### the string lemma behind the `lstrip` defect of `Splicer.graph` -/
 
